@@ -201,8 +201,8 @@ Qed.
 Print Assumptions typedef_start_only_check_total_refuted.
 
 (* ------------------------------------------------------------------ declaration-level tables: struct value-member cycles (StructGraph.v) *)
-(* TypeUtilityParser::detectCircularReference AS CODED (names of the current path in `visited`) recurses at most
-   |struct_definitions_| + 1 deep on EVERY table and for every start / member type: no arrangement of struct definitions -
+(* TypeUtilityParser::detectCircularReference AS CODED (since fix 08b0ce5 every walked struct stays in `visited`) recurses at
+   most |struct_definitions_| + 1 deep on EVERY table and for every start / member type: no arrangement of struct definitions -
    cycles through the struct being defined or elsewhere - makes the check run forever or overflow the stack by itself *)
 Theorem struct_cycle_check_total : forall (g : sgraph) (start ty : string),
   detect (S (List.length g)) g start ty [] <> None.
@@ -216,13 +216,63 @@ Theorem struct_decl_check_decided : forall (g : sgraph) n ms (m : member),
 Proof. exact sg_step_check_decided. Qed.
 Print Assumptions struct_decl_check_decided.
 
+(* COST of one check (repair of finding C10-struct-diamond-exponential, fix 08b0ce5).  Every struct is walked at most once per
+   check: the structs whose member loop was entered ([detect_walked] = `visited` when the check returns) are pairwise
+   different names of the table ... *)
+Theorem struct_cycle_check_walks_each_struct_once : forall (g : sgraph) (start ty : string),
+  NoDup (detect_walked g start ty) /\ incl (detect_walked g start ty) (map fst g).
+Proof. exact detect_walked_once_l. Qed.
+Print Assumptions struct_cycle_check_walks_each_struct_once.
+
+(* ... every activation of detectCircularReference is the first one or the visit of one value member of a walked struct ... *)
+Theorem struct_cycle_check_calls_by_walked : forall (g : sgraph) (start ty : string),
+  detect_calls g start ty <= 1 + nv_sum g (detect_walked g start ty).
+Proof. exact detect_calls_walked_l. Qed.
+Print Assumptions struct_cycle_check_calls_by_walked.
+
+(* ... hence the LINEAR bound, for every table (duplicate-free or not), start and member type: at most one activation per value
+   member of the table plus the first; in the words of the repair: the number of recursive calls is at most
+   |struct_definitions_| + number of member edges *)
+Theorem struct_cycle_check_linear : forall (g : sgraph) (start ty : string),
+  detect_calls g start ty <= 1 + value_edges g.
+Proof. exact detect_calls_linear_l. Qed.
+Print Assumptions struct_cycle_check_linear.
+
+Theorem struct_cycle_check_recursive_calls : forall (g : sgraph) (start ty : string),
+  detect_calls g start ty - 1 <= List.length g + member_edges g.
+Proof. exact detect_recursive_calls_l. Qed.
+Print Assumptions struct_cycle_check_recursive_calls.
+
+(* a whole definition  struct N { m1; ..; mk };  runs one check per value member: at most k * (1 + value members of the table) *)
+Theorem struct_decl_check_cost : forall (g1 : sgraph) n (ms : list member),
+  decl_check_calls g1 n ms <= nvl ms * (1 + value_edges g1).
+Proof. exact decl_check_calls_bound_l. Qed.
+Print Assumptions struct_decl_check_cost.
+
+(* keeping the marks loses no answer: the check says `true` exactly when the struct being defined is reached from the member's
+   type along value members through defined structs ([reach], the reference meaning of a value-member cycle) *)
+Theorem struct_cycle_check_correct : forall (g : sgraph) (start ty : string),
+  detect (S (List.length g)) g start ty [] = Some true <-> reach g start ty.
+Proof. exact detect_correct_l. Qed.
+Print Assumptions struct_cycle_check_correct.
+
 (* the hypotheses are satisfiable / the models compute *)
-(* cost of the same walk (finding C10-struct-diamond-exponential): a struct reached along two paths is walked twice - the
-   accepted family  struct M0 {int v;}; struct M(i+1) { Mi a; Mi b; };  costs 2^(n+1) - 2 activations for its last struct *)
+(* the family of the former finding: struct M0 {int v;}; struct M(i+1) { Mi a; Mi b; };  is accepted; the last definition's two
+   checks cost 4n - 2 activations; with the walk as it was before 08b0ce5 ([detectu]: a struct reached along two paths is walked
+   twice) they cost 2^(n+1) - 2 *)
 Example struct_diamond_cost :
   map (fun n => snd (sg_run [] (diamond n))) [1; 5; 9] = [None; None; None] /\
-  map diamond_calls [1; 2; 3; 4; 5; 6; 7; 8; 9; 10] = [2; 6; 14; 30; 62; 126; 254; 510; 1022; 2046].
-Proof. vm_compute. split; reflexivity. Qed.
+  map diamond_calls [1; 2; 3; 4; 5; 6; 7; 8; 9; 10] = [2; 6; 10; 14; 18; 22; 26; 30; 34; 38] /\
+  map diamond_calls_before_fix [1; 2; 3; 4; 5; 6; 7; 8; 9; 10] = [2; 6; 14; 30; 62; 126; 254; 510; 1022; 2046].
+Proof. vm_compute. repeat split; reflexivity. Qed.
+Example struct_reach_sample :
+  let g := fst (sg_run [] [SDef "A" []; SDef "B" [("A", MValue)]; SDef "A" [("B", MValue)]]%string) in
+  reach g "A"%string "B"%string /\ detect_walked g "A"%string "B"%string = ["B"]%string /\ detect_walked g "C"%string "B"%string = ["A"; "B"]%string.
+Proof.
+  split; [|split; vm_compute; reflexivity].
+  eapply reach_step with (d := mkS false [("A", MValue)]%string) (mt := "A"%string); [vm_compute; reflexivity|reflexivity|left; reflexivity|].
+  eapply reach_here with (d := mkS false [("B", MValue)]%string); [vm_compute; reflexivity|reflexivity].
+Qed.
 Example struct_cycle_samples :
   map (fun ds => snd (sg_run [] ds))
     [[SDef "A" [("A", MValue)]]; [SDef "A" [("A", MPtr)]]; [SDef "A" [("A", MArr)]];
